@@ -28,8 +28,8 @@ var Check = &vrt.Check{
 	Rule: "a case is a batch of operation histories over {AddOut, Prepare, SetSent, SetDeferred, ProcessInbound (one and two messages), SetUnread(true/false), restart} " +
 		"x 3 MIDs, for 3 casts of (recipient set, P2P-only) per MID covering all 8 combinations, in normal and send-only mode; all histories up to length 3 (thorough: 4) that respect " +
 		"the documented preconditions are enumerated, plus PRNG histories of length 10-60 with per-operation message variants; after the last operation of every exhaustive history " +
-		"(all prefixes are themselves enumerated) and after every operation of a PRNG history ALL observables are compared with the model. A history is non-trivial when it executed at " +
-		"least one operation on the real DirHandler and a full observation; distinct = distinct (mode, cast, operation sequence)",
+		"(all prefixes are themselves enumerated) and after every operation of a PRNG history ALL observables are compared with the model. A history is non-trivial when at least one stored " +
+		"message was compared with the model (listing or GetOutbound result), i.e. the mailbox was not empty all along; distinct = distinct (mode, cast, operation sequence)",
 	Assumptions: []string{
 		"preconditions documented by the interface are respected: Prepare is called first on every new DirHandler; SetSent and SetDeferred only for MIDs currently in the outbox (SetSent log.Fatalf's otherwise, by design); SetUnread only for messages listed from the inbox",
 		"a MID that has been moved to sent/ is not added to the outbox again (a MID identifies one message)",
@@ -265,6 +265,7 @@ type runner struct {
 	hist     []op
 	label    string
 	failed   bool
+	compared int // stored messages compared with the model (listings + GetOutbound results)
 }
 
 func (r *runner) violate(key, format string, a ...any) {
@@ -393,6 +394,7 @@ func (r *runner) observe() {
 				continue
 			}
 			r.o.Count("listed_messages_compared", 1)
+			r.compared++
 			r.o.Count("bytes_compared", int64(len(b)))
 			if !bytes.Equal(mboxkit.Canon(b), mboxkit.Canon(s.bytes)) {
 				r.violate("listing:"+f.name+":bytes", "%s/%s differs from the stored message (modulo X-FilePath/X-Unread): got %q want %q", f.name, mid, mboxkit.Canon(b), mboxkit.Canon(s.bytes))
@@ -444,6 +446,7 @@ func (r *runner) observe() {
 			if leaked {
 				continue
 			}
+			r.compared++
 			if wantB := mboxkit.StripHeaders(m.out[mid].bytes, mboxkit.PrivateAll); !bytes.Equal(b, wantB) {
 				r.violate("getoutbound-bytes:"+kind, "GetOutbound(%s): %s differs from the stored message minus private headers: got %q want %q", fwNames[i], mid, b, wantB)
 			}
@@ -488,5 +491,9 @@ func runHistory(o *vrt.Obs, label string, sendOnly bool, hist []op, everyStep bo
 			}
 		}
 	})
-	o.Sig("%s|%s", label, histString(hist))
+	if r.compared > 0 {
+		o.Sig("%s|%s", label, histString(hist))
+	} else {
+		o.Count("histories_on_an_empty_mailbox_trivial", 1)
+	}
 }
